@@ -13,6 +13,7 @@ EXPLANATION = ("C03: the encoder's structure is compared with the Source Map v3 
 NOT_DECIDED = "that an independent v3 reader decodes exactly the map's tokens for all maps (value-level)."
 
 RULES = {
+    "C03.RW": lambda ctx: __import__("rules.foundations", fromlist=["x"]).wire_types_derived_only(ctx, "C03.RW"),
     "C03.RG": lambda ctx: __import__("rules.foundations", fromlist=["x"]).no_global_state(ctx, "C03.RG"),
     # the data URL the encoder side produces is standard padded base64 behind the literal preamble
     "C03.R8": lambda ctx: __import__("rules.detrules", fromlist=["x"]).data_url_pairing(ctx, "C03.R8"),
